@@ -581,13 +581,13 @@ public:
   inline int32_t get_s24l(bool advance = true) { return ext24(this->get_u24l(advance)); }
 
   inline uint32_t pget_u24b(size_t offset) const {
-    if (offset + 3 > this->length) {
+    if ((offset > this->length) || (this->length - offset < 3)) {
       throw std::out_of_range("end of string");
     }
     return (this->data[offset] << 16) | (this->data[offset + 1] << 8) | this->data[offset + 2];
   }
   inline uint32_t pget_u24l(size_t offset) const {
-    if (offset + 3 > this->length) {
+    if ((offset > this->length) || (this->length - offset < 3)) {
       throw std::out_of_range("end of string");
     }
     return this->data[offset] | (this->data[offset + 1] << 8) | (this->data[offset + 2] << 16);
@@ -612,7 +612,7 @@ public:
   inline int64_t get_s48b(bool advance = true) { return ext48(this->get_u48b(advance)); }
   inline int64_t get_s48l(bool advance = true) { return ext48(this->get_u48l(advance)); }
   inline uint64_t pget_u48b(size_t offset) const {
-    if (offset + 6 > this->length) {
+    if ((offset > this->length) || (this->length - offset < 6)) {
       throw std::out_of_range("end of string");
     }
     return (static_cast<uint64_t>(this->data[offset]) << 40) |
@@ -623,7 +623,7 @@ public:
         (static_cast<uint64_t>(this->data[offset + 5]));
   }
   inline uint64_t pget_u48l(size_t offset) const {
-    if (offset + 6 > this->length) {
+    if ((offset > this->length) || (this->length - offset < 6)) {
       throw std::out_of_range("end of string");
     }
     return (static_cast<uint64_t>(this->data[offset])) |
